@@ -899,6 +899,12 @@ func (c *Conn) maxPayloadSizeForWrite(typ recordType) int {
 
 // writeRecordLocked 写入一条 DTLCP 记录并更新记录层状态。
 func (c *Conn) writeRecordLocked(typ recordType, data []byte) (int, error) {
+	return c.writeRecordsLocked(typ, data, false)
+}
+
+// writeRecordsLocked 与 writeRecordLocked 相同；emptyOK 为 true 时空载荷也产生一条
+// （明文长度为 0 的）记录，供数据报语义的 WriteTo 使用。
+func (c *Conn) writeRecordsLocked(typ recordType, data []byte, emptyOK bool) (int, error) {
 	outBufPtr := outBufPool.Get().(*[]byte)
 	outBuf := *outBufPtr
 	defer func() {
@@ -907,7 +913,7 @@ func (c *Conn) writeRecordLocked(typ recordType, data []byte) (int, error) {
 	}()
 
 	var n int
-	for len(data) > 0 {
+	for first := true; len(data) > 0 || (first && emptyOK); first = false {
 		m := len(data)
 		if maxPayload := c.maxPayloadSizeForWrite(typ); m > maxPayload {
 			m = maxPayload
@@ -1544,7 +1550,8 @@ func (c *Conn) WriteTo(p []byte, addr net.Addr) (n int, err error) {
 
 	c.out.Lock()
 	defer c.out.Unlock()
-	return c.writeRecordLocked(recordTypeApplicationData, p)
+	// 数据报语义：每次 WriteTo 对应一个数据报，空载荷也不例外
+	return c.writeRecordsLocked(recordTypeApplicationData, p, true)
 }
 
 // =============================================================================
